@@ -21,8 +21,21 @@ def run_impl(sc):
     with warnings.catch_warnings(record=True) as w:
         warnings.simplefilter("always")
         try:
-            states = [State(initial=i, final=f) for (i, f) in sc["states"]]
-            attrs = {f"s{k}": st for k, st in enumerate(states)}
+            n_ = len(sc["states"])
+            if sc.get("via_enum") and sum(i for i, _ in sc["states"]) == 1:
+                # the states come from an IntEnum whose first member is 0 (a falsy member)
+                import enum
+                from statemachine.states import States
+                E = enum.IntEnum("E", {f"s{k}": k for k in range(n_)})
+                init = [E[f"s{k}"] for k, (i, _f) in enumerate(sc["states"]) if i][0]
+                fin = [E[f"s{k}"] for k, (_i, f) in enumerate(sc["states"]) if f]
+                group = States.from_enum(E, initial=init, final=(fin[0] if len(fin) == 1 else fin))
+                states = [getattr(group, f"s{k}") for k in range(n_)]
+                attrs = {"states_": group}
+            else:
+                states = [State(initial=i, final=f) for (i, f) in sc["states"]]
+                attrs = {f"s{k}": st for k, st in enumerate(states)}
+            states = states + [State() for _ in range(3)]      # targets that never become states of the class
             for j, (s, t, internal, hasev) in enumerate(sc["trans"]):
                 tl = states[s].to(states[t], internal=bool(internal))
                 if hasev:
@@ -232,6 +245,12 @@ def generate(rng, tier):
         d = random_decl(rng, 3, 6) if rng.random() < 0.8 else random_decl(rng, 1, 3)
         if d["trans"] and rng.random() < 0.4:
             d["split"] = max(1, len(d["trans"]) - rng.randint(0, 3))
+        else:
+            if rng.random() < 0.3:
+                d["via_enum"] = True
+            if rng.random() < 0.15:
+                # a transition whose target is a State object that is not a state of the class
+                d["trans"].insert(rng.randint(0, len(d["trans"])), [rng.randrange(len(d["states"])), len(d["states"]), 0, 1])
         scs.append(d)
     parts.append((f"random declarations over 1..6 states (mostly valid + mutated), seed-derived; 40% of them also "
                   "written as a base class plus a subclass that adds transitions and from_.any() declarations", nrand))
